@@ -10,20 +10,20 @@ NOTE = ('Trusted: Lean 4.33 kernel with axioms propext/Classical.choice/Quot.sou
         'Each Rust function is related to its Lean twin only by the correspondence on the explored inputs.')
 
 P = {
- 'C01': ('proof', '3.4, 6 C01, 12.1', 'refinement proof (compiler correctness) + correspondence',
-         'Theorem C01_vm_correct_s2 (all texts, offsets, patterns in the stage): the VM run of the compiled wrapped tree equals the reference leftmost priority-ordered search - match/no match, span, every group - up to the three resource stops, for every pattern whose tree satisfies the decidable predicate s2ok (every construct the VM interprets itself: literals, any, assertions, \\K, \\G, back-references, group tests, concat, alt, groups, all quantifiers with NoEmptyLoop, atomic groups, look-aheads, look-behinds over a const-size non-alternation body, conditionals; NoCondLeak) and whose program contains no Delegate instruction. Chain: undo-log State -> whole copies (C20) -> auxiliary stack as a list (AuxStack) -> structured machine Big2 for every instruction (link2) -> reference semantics (sim2_visit) -> refSearch. Also: the reference search is leftmost; semK = list semantics; negative witness theorems for F1/F8/F10. Programs with Delegate (stage S3) are validated, not proved: the evidence states the share of explored patterns/cases inside the proved stage on every run. Tie: build kind, program listing and span, implementation vs model, every explored case; oracle: implementation vs reference on all in-domain cases.'),
+ 'C01': ('proof', '3.4, 6 C01, 12.1', 'refinement proof (compiler correctness, delegation included) + correspondence',
+         'Theorem C01_vm_correct_s3 (all texts, offsets, patterns in the stage): the VM run of the compiled wrapped tree equals the reference leftmost priority-ordered search - match/no match, span, every group - up to the three resource stops, for every pattern inside the decidable stage predicate s3Stage: literals, classes, any, assertions, \\K, \\G, back-references, group tests, concat, alt, groups, all quantifiers (NoEmptyLoop), atomic groups, look-aheads, look-behinds over a const-size non-alternation body, conditionals (NoCondLeak), easy sub-trees delegated whole in non-hard contexts, const-size group-free easy prefixes/suffixes delegated in hard contexts. Delegate is executed by delegateOracle (first reference result of the delegated expressions: assumption A-RA about regex-automata, checked on every delegated piece explored). Chain: undo-log State -> whole copies (C20) -> auxiliary stack as a list (AuxStack) -> structured machine Big2 for every instruction (link2) -> reference semantics (sim3_visit) -> refSearch. Also: reference search is leftmost; semK = list semantics; negative witness theorems for F1/F8/F10. Outside the stage (delegated pieces with groups in hard contexts, look-behind over alternation, F1/F8/F10 territory) the model VM is validated, not proved; the evidence states the share of explored patterns/cases inside the stage on every run (about 85% / 76%). Tie: build kind, program listing and span, implementation vs model, every explored case; oracle: implementation vs reference on all in-domain cases.'),
  'C02': ('proof', '6 C02, 12.1', 'refinement proof (compiler correctness) + correspondence',
-         "Theorem C02_groups_s2: in the proved stage (see C01) every capture slot reported by the VM run of the compiled program equals the reference's (last iteration that entered the group, unset if never entered, kept through look-arounds, nothing from abandoned alternatives - all consequences of equality with the pure reference semantics). Spec lemmas: set groups have start <= end, groups outside an expression untouched (frame), numbering = pre-order (renumber). Tie and oracle compare every group of every match and the per-node group ranges of the analysis; commit/restore and numbering pattern families."),
- 'C03': ('proof', '6 C03', 'spec congruence theorem + metamorphic differential',
-         'Theorem: inserting an empty positive look-ahead before or after any sub-expression leaves the reference semantics unchanged (all contexts, unconditionally). Engine side: implementation on P vs on inject(P) on the explored space, both tied to the model.'),
+         "Theorem C02_groups_s3: in the proved stage (see C01) every capture slot reported by the VM run of the compiled program equals the reference's (last iteration that entered the group, unset if never entered, kept through look-arounds, nothing from abandoned alternatives; groups inside delegated pieces: those that took part are copied, the others keep their value - delegate_step_spec). Spec lemmas: set groups have start <= end, frame, numbering = pre-order. Tie and oracle compare every group of every match and the per-node group ranges of the analysis; commit/restore and numbering pattern families."),
+ 'C03': ('proof', '6 C03, 12.1', 'spec congruence theorem + engine corollary of the refinement + metamorphic differential',
+         'Theorems: inserting (?=) before or after any sub-expression at any depth (inductive relation Inj / InjStar; the one excluded position - wrapping the alternation body of a look-behind - is shown to really differ and then no longer compiles) leaves the reference semantics, the group numbering and the reference search unchanged, unconditionally; C03_inject_stage: a pattern and its injected variants give identical results whenever each is handed to the automata engine as a whole or lies in the proved engine stage (machine-checked example ab vs a(?=)b). Engine side outside the stage: implementation on P vs inject(P) on all explored cases (metamorphic), both tied to the model.'),
  'C04': ('other', '6 C04', 'differential against the regex crate + model tie',
          'The regex crate is not modelled: the cross-crate agreement holds on the explored inputs only. Theorems: the model API layer over any search equals the statement-level algorithms (C08-C11). Two correspondences against the same model (fancy-regex <-> model, regex crate <-> model) plus the direct differential on every API call.'),
- 'C05': ('proof', '6 C05, 12.1', 'invariant by induction over VM steps + UTF-8 layer theorems + exploration',
-         "Theorems: the model VM reaches no panic site from a well-formed state (per-instruction lemmas; all instructions via the link theorem wherever the structured machine is defined); in the proved engine stage a search never panics and reports the reference's offsets; UTF-8 layer (C05b): boundaries of encode are exactly the character offsets, next_utf8 / prev_codepoint_ix / GoBack move by whole characters, slices between character positions never panic, literals are prefix-free; End caps the start into [pos, end]; API-layer slices are in range given a well-formed search. Entry points explored under catch_unwind on the unrestricted grammar with 1-4 byte characters."),
+ 'C05': ('proof', '6 C05, 12.1', 'invariant by induction over VM steps + refinement corollary + UTF-8 layer theorems + exploration',
+         'Theorems: no instruction of the model VM panics from a state satisfying the invariant where the structured machine is defined (exact panic conditions for EndAtomic / FailNegativeLookAround / Delegate stated); C05_search_never_panics and C05_offsets_valid: in the proved engine stage a search never panics and every reported slot is <= len with start <= end; UTF-8 layer (C05b): boundaries of encode are exactly the character offsets, next_utf8 / prev_codepoint_ix / GoBack move by whole characters, slices between character positions never panic, literals are prefix-free; End caps the start into [pos, end]; API-layer slices in range given a well-formed search. Entry points explored under catch_unwind on the unrestricted grammar with 1-4 byte characters; a dying or hanging harness process is reported with the pattern it was working on.'),
  'C06': ('proof', '6 C06, 12.2', 'totality/no-panic theorems on the parser model + parser correspondence + exploration with resource meters',
          'The recursive-descent parser is inside the model (Model/Parse.lean, byte-level, explicit panic sites). Theorems for every string: C06_parse_no_panic, C06_error_pos (reported position <= length), C06_depth (tree depth bounded by MAX_RECURSION), C06_parse_total (Ok or Err, the model never runs out of fuel), bounds for each leaf scanner; analyzer arithmetic saturates below usize::MAX; group count linear. Parser tie: ~2M (quick) / ~15M (thorough) patterns - malformed stream, all engine spaces, respellings, escape outputs, multi-byte fillers, numeric-boundary probes - tree / back-reference set / names or error kind + byte position, Rust vs Lean. Resource clause (time, allocation, native stack) is measured on probes, not proved.'),
- 'C07': ('proof', '6 C07', 'lock-step simulation theorem + correspondence of run counters',
-         'Theorems (any program, any text): a run with limit L is the limit error or the unlimited answer; every L >= the backtracks of the unlimited run gives the unlimited answer; the branch stack never exceeds MAX_STACK. Termination bound for compiled programs is validated (instruction counts implementation = model on every explored case), not proved.'),
+ 'C07': ('proof', '6 C07, 12.1', 'lock-step simulation theorem + termination from the refinement + correspondence of run counters',
+         'Theorems (any program, any text): a run with limit L is the limit error or the unlimited answer; every L >= the backtracks of the unlimited run gives the unlimited answer; a limit error means the limit was exceeded. In the proved engine stage (see C01): C07_search_terminates (some amount of fuel is never exhausted) and C07_steps_bounded (the number of executed instructions is bounded independently of fuel and limit) - total correctness. Tie: outcome class and step/backtrack/depth counters, implementation vs model, under a ladder of limits up to usize::MAX; every entry point under every limit gives the same outcome class; a shard that does not finish is reported.'),
  'C08': ('proof', '6 C08', 'state-machine theorems over an arbitrary search oracle + correspondence',
          "Theorems over an arbitrary oracle: C08_eq_spec - the iterator model (Matches::next, CaptureMatches::next) yields exactly the statement's iteration (also with captures, and up to the first error); under pos <= start <= end the sequence is strictly increasing and non-overlapping; nothing follows an error; termination within len+2 calls; the skipped-empty flag. Tie in two forms (over the implementation's own search answers; end to end)."),
  'C09': ('proof', '6 C09', 'definitional equalities + iterator theorem + exploration',
